@@ -394,12 +394,24 @@ pub fn nsuffix() -> impl Strategy<Value = NSuffix> {
     ]
 }
 
+/// Counters of the noise filter (generated / rejected because the noise contained a start sequence).
+pub static NOISE_GENERATED: std::sync::atomic::AtomicU64 = std::sync::atomic::AtomicU64::new(0);
+pub static NOISE_REJECTED: std::sync::atomic::AtomicU64 = std::sync::atomic::AtomicU64::new(0);
+
 /// Idle noise whose concatenation with START contains START only at its end. `allow_empty`
 /// decides whether the empty noise is produced.
 pub fn noise(max_run: usize, allow_empty: bool) -> impl Strategy<Value = Noise> {
     (vec(ntok(max_run), if allow_empty { 0..5usize } else { 1..5usize }), nsuffix())
         .prop_map(|(toks, suffix)| Noise { toks, suffix })
-        .prop_filter("noise must not contain a start sequence", |n| noise_admissible(&n.bytes()))
+        .prop_filter("noise must not contain a start sequence", |n| {
+            use std::sync::atomic::Ordering::Relaxed;
+            NOISE_GENERATED.fetch_add(1, Relaxed);
+            let ok = noise_admissible(&n.bytes());
+            if !ok {
+                NOISE_REJECTED.fetch_add(1, Relaxed);
+            }
+            ok
+        })
 }
 
 #[cfg(test)]
